@@ -1,5 +1,5 @@
 """Which units decide which property (DESIGN.md section 4)."""
-UNIT_KIND = {}  # default 'verus'
+UNIT_KIND = {'U-DIG': 'kani'}  # default 'verus'
 
 PROPS = {
     'C07': {'units': ['U-VT', 'U-RES'],
@@ -20,12 +20,12 @@ PROPS = {
     'C12': {'units': ['U-EXPORT'], 'assumptions': ['expand (import fix-point), Compiler multi-module state and split-equivalence are not under contract'], 'trusted': []},
     'C13': {'units': ['U-CODE', 'U-LEXD'], 'assumptions': ['alpha spans, rendering (ariadne) and run-to-run determinism are not under contract'], 'trusted': []},
     'C14': {'units': ['U-LEXD'], 'assumptions': ['the alpha lexer itself is not under contract, hence not the headline equivalence'], 'trusted': []},
-    'C15': {'units': ['U-LEXD', 'U-PARSE', 'U-HDR'], 'assumptions': ['XML dumps (as_xml/print_xml) excluded: format!/Box<dyn Iterator>/&str slicing',
+    'C15': {'units': ['U-LEXD', 'U-PARSE', 'U-HDR', 'U-DIG'], 'assumptions': ['XML dumps (as_xml/print_xml) excluded: format!/Box<dyn Iterator>/&str slicing',
             'parse() precondition: the token list comes from lex() without errors (ends in two EndOfSource tokens, packed words well formed) - the lexer unit does not yet export this as a postcondition',
             'parse() precondition: 5 + 5 * tokens <= 2^24 (node ids are 24 bits): for inputs above ~3.3 million tokens U24::new would overflow (debug_assert) - documented size regime, see DESIGN.md section 5 (D10)',
             'unbounded stack: recursion depth of the parser is not bounded by any obligation (D4: 5000 nested parentheses overflow the stack)',
             '.into() conversions from lexer TokenId to parse_node::TokenId: argument < 2^24 not checked per call site (trait impls cannot carry requires); holds because cursor <= number of tokens < 2^24'], 'trusted': []},
-    'C17': {'units': ['U-HDR'], 'assumptions': ['tree invariant (zones well bracketed, no reference crosses a zone) is a precondition here; parser side under construction'], 'trusted': []},
+    'C17': {'units': ['U-HDR', 'U-DIG'], 'assumptions': ['tree invariant (zones well bracketed, no reference crosses a zone) is a precondition here; parser side under construction'], 'trusted': []},
 }
 
 NOT_APPLICABLE = {
